@@ -316,6 +316,7 @@ KNOWN_CLASSES = {
     "det_clause_shares_body_with_prob_clause": lambda case, failure: det_clause_shares_body_with_prob_clause(
         case["prog"]),
     "body_disjunction": lambda case, failure: body_disjunction(case["prog"]),
+    "keep_all_body_disjunction": lambda case, failure: body_disjunction(case["prog"]),  # F-OPT-3
     "aliased_atoms": lambda case, failure: aliased_atoms(case["prog"]),
     "shared_var_call": lambda case, failure: gp.shared_var_call(case["prog"]),
     "bodyless_multihead_ad": lambda case, failure: bodyless_multihead_ad(case["prog"]),
